@@ -1,4 +1,5 @@
 import CharonV.Model.Provide
+import CharonV.Model.ProxyCall
 import Driver.Common
 
 /-
@@ -12,6 +13,16 @@ event = p<i> | f<i> | x
 
 output: <result> n=<events consumed> fb=<0|1>
 result: ok:<p|f><i> | nok:<p|f><i> | err:<p|f><i>:<class> | ctx | bug | stuck   (submit: ok | err:… | ctx | bug | stuck)
+
+  proxy <GET|POST> body=<nil|E|<n>.<s>|<n>.<s>.e<k>> P=<nodes> F=<nodes|-> ev=<events|->
+      `multi.Proxy` (Model/ProxyCall): byte i of the body = (s + 13 i + i/251) mod 256; e<k>: reading the
+      caller's body fails after k bytes; E = http.NoBody
+output: <result|rderr> n=… fb=… recv=<node:len.sum|node:nil,…|-> caller=<bytes read>/<closes>|- rb=<len.sum|nil|caller> cl=<ContentLength>
+
+  http <ver|sub|pxy> to=<ms> P=<kinds> F=<kinds|-> cancel=<ms|-> uses=<1|2> [hold=<ms>]    kind = ok | hg | dd | sl
+      (hold: a second caller of the same call that gives up after <ms>; its result is appended as bg=…)
+      the lazy / http path: scenario and event order of Model/ProxyCall (`httpScen`, `httpEvents`)
+output: r=<ok:<node>|ok|err:un|err:er|ctx> fb=<0|1> [ | the same again for the second use ]
 -/
 open CharonV.Provide
 
@@ -81,6 +92,130 @@ def step (u : Unit) (line : String) : Unit × String :=
     | _, _, _, _ => (u, "bad-op")
   | _ => (u, "bad-op")
 
+/-! ### proxy ops -/
+
+def bodyBytes (n s : Nat) : List Nat := (List.range n).map (fun i => (s + 13 * i + i / 251) % 256)
+
+def digest (b : List Nat) : String :=
+  s!"{b.length}.{b.foldl (fun acc x => (acc * 131 + x + 1) % 1000003) 7}"
+
+inductive BodySpec where
+  | nil | noBody
+  | bytes (n s : Nat) (failAt : Option Nat)
+
+def parseBody (s : String) : Option BodySpec :=
+  if s == "nil" then some .nil
+  else if s == "E" then some .noBody
+  else
+    match s.splitOn "." with
+    | [a, b] =>
+      match a.toNat?, b.toNat? with
+      | some n, some sd => if n > 1048576 then none else some (.bytes n sd none)
+      | _, _ => none
+    | [a, b, c] =>
+      match a.toNat?, b.toNat?, dropPrefix "e" c with
+      | some n, some sd, some ks =>
+        match ks.toNat? with
+        | some k => if k > n || n > 1048576 then none else some (.bytes n sd (some k))
+        | none => none
+      | _, _, _ => none
+    | _ => none
+
+def keyStr (k : Key) : String := s!"{grp k.1}{k.2}"
+
+def stepProxy (method body p f ev : String) : String :=
+  match dropPrefix "body=" body, dropPrefix "P=" p, dropPrefix "F=" f, dropPrefix "ev=" ev with
+  | some bs, some ps, some fs, some es =>
+    match parseBody bs, parseNodes ps, parseNodes fs, parseEvs es with
+    | some spec, some prim, some fb, some evs =>
+      if method != "GET" && method != "POST" then "bad-op" else
+      if (prim ++ fb).any (fun n => n.out == .nok) then "bad-op" else
+      let sc : Scen := { prim := prim, fb := fb, sf := false }
+      -- the caller's request: its body reader (if any) is reader 0 of the heap
+      let (h0, req0) : Heap × Req :=
+        match spec with
+        | .nil => ([], { post := method == "POST", body := none, clen := 0, getBody := none })
+        | .noBody => ([freshReader []], { post := method == "POST", body := some 0, clen := 0, getBody := none })
+        | .bytes n sd fa =>
+          ([{ data := bodyBytes n sd, pos := 0, failAt := fa, closes := 0 }],
+           { post := method == "POST", body := some 0, clen := if sd % 2 == 0 then n else 0, getBody := none })
+      let run := proxy sc evs h0 req0
+      let rs := match run.res with
+        | .readErr => "rderr"
+        | .ret r => resStr false r
+      let (h1, got) := nodesRead run.heap run.handed
+      let recv := got.map (fun (k, b) => match b with
+        | none => s!"{keyStr k}:nil"
+        | some bytes => s!"{keyStr k}:{digest bytes}")
+      let caller := match spec, h1[0]? with
+        | .bytes _ _ _, some r => s!"{r.pos}/{r.closes}"
+        | _, _ => "-"
+      let rb := match run.req.body with
+        | none => "nil"
+        | some id =>
+          if id == 0 then "caller" else digest (readAll h1 id).2.1
+      let recvStr := if recv.isEmpty then "-" else ",".intercalate recv
+      s!"{rs} n={run.consumed} fb={if run.usedFb then 1 else 0} recv={recvStr} caller={caller} rb={rb} cl={run.req.clen}"
+    | _, _, _, _ => "bad-op"
+  | _, _, _, _ => "bad-op"
+
+/-! ### http ops -/
+
+def parseKind (s : String) : Option Kind :=
+  match s with
+  | "ok" => some .healthy | "hg" => some .hung | "dd" => some .dead | "sl" => some .slow
+  | _ => none
+
+def parseKinds (s : String) : Option (List Kind) :=
+  if s == "-" then some [] else (s.splitOn ",").mapM parseKind
+
+def stepHttp (style to p f cancel uses : String) (hold : Option String := none) : String :=
+  match dropPrefix "to=" to, dropPrefix "P=" p, dropPrefix "F=" f, dropPrefix "cancel=" cancel, dropPrefix "uses=" uses with
+  | some tos, some ps, some fs, some cs, some us =>
+    match tos.toNat?, parseKinds ps, parseKinds fs, us.toNat? with
+    | some t, some prim, some fb, some u =>
+      if style != "ver" && style != "sub" && style != "pxy" then "bad-op" else
+      if t < 50 || t > 60000 || u < 1 || u > 2 || ps == "-" then "bad-op" else
+      let cancelled : Option Bool :=
+        if cs == "-" then some false else
+        match cs.toNat? with
+        | some c => if c < t then some true else none
+        | none => none
+      match cancelled with
+      | none => "bad-op"
+      | some cn =>
+        let sc := httpScen prim fb
+        let evs := httpEvents prim fb cn
+        let r := provide sc evs
+        let rs := match r.1 with
+          | .okFrom g i => if style == "sub" then "ok" else s!"ok:{grp g}{i}"
+          | .errFrom _ _ c => if unavailable c then "err:un" else "err:er"
+          | .ctxErr => "ctx"
+          | .nokFrom _ _ => "nok" | .bug => "bug" | .stuck => "stuck"
+        let fbSeen := usedFallback sc evs && fb.any (fun k => k != .dead)
+        let one := s!"r={rs} fb={if fbSeen then 1 else 0}"
+        match hold with
+        | none => if u == 2 then s!"{one} | {one}" else one
+        | some hs =>
+          -- the background caller is a cancelled call of its own over the same nodes
+          match (dropPrefix "hold=" hs).bind String.toNat? with
+          | some hms =>
+            if hms ≥ t || u != 1 || !cn || style == "pxy" then "bad-op" else
+            let rb := provide sc (httpEvents prim fb true)
+            let bs := match rb.1 with
+              | .okFrom _ _ => "ok" | .ctxErr => "ctx" | _ => "err"
+            s!"{one} | bg={bs}"
+          | none => "bad-op"
+    | _, _, _, _ => "bad-op"
+  | _, _, _, _, _ => "bad-op"
+
+def stepAll (u : Unit) (line : String) : Unit × String :=
+  match line.splitOn " " with
+  | ["proxy", method, body, p, f, ev] => (u, stepProxy method body p f ev)
+  | ["http", style, to, p, f, cancel, uses] => (u, stepHttp style to p f cancel uses)
+  | ["http", style, to, p, f, cancel, uses, hold] => (u, stepHttp style to p f cancel uses (some hold))
+  | _ => step u line
+
 end Driver.Provide
 
-def main : IO Unit := Driver.runLoop Driver.Provide.step ()
+def main : IO Unit := Driver.runLoop Driver.Provide.stepAll ()
